@@ -19,8 +19,15 @@ def _choose_value(rng, env, name, f, control):
     if t.kind == "Flag":
         return rng.random() < 0.5
     if t.kind == "Float":
-        return ("f", rng.choice([0, 1 << (t.bits - 1), 0x3F800000 if t.bits == 32 else 0x3FF0000000000000,
-                                  rng.getrandbits(t.bits), (0x7F800000 if t.bits == 32 else 0x7FF0000000000000)]))
+        if t.bits == 32:
+            special = [0, 1 << 31, 0x3F800000, 0x7F800000, 0xFF800000, 0x7F7FFFFF, 0xFF7FFFFF, 0x00000001, 0x80000001, 0x00800000,
+                       0x7FC00000, 0x3DCCCCCD, 0xC2F6E979]
+        else:
+            special = [0, 1 << 63, 0x3FF0000000000000, 0x7FF0000000000000, 0xFFF0000000000000, 0x7FEFFFFFFFFFFFFF, 0xFFEFFFFFFFFFFFFF,
+                       0x0000000000000001, 0x8000000000000001, 0x0010000000000000, 0x8010000000000000, 0x7FF8000000000000,
+                       0x3FB999999999999A, 0xC05EDD2F1A9FBE77, 0xFFD5555555555555, 0x800FFFFFFFFFFFFF]
+        # every length of printed representation: extreme exponents of both signs, denormals, NaN, infinities
+        return ("f", rng.choice(special) if rng.random() < 0.6 else rng.getrandbits(t.bits))
     if t.kind == "Enum":
         e = env.m.enum(t.enum)
         lo, hi = M.scalar_range(t, env.m)
